@@ -1532,7 +1532,9 @@ const char* rtosc_skip_next_printed_arg(const char* src, int* skipped,
                     rtosc_skip_next_printed_arg(llhssrc,
                                                 &llhsskipped, &llhstype,
                                                 NULL, 0, inside_bundle);
-                    if(types_match(llhstype, lhstype))
+                    // only numeric ranges count, and only numeric values can
+                    // be scanned without a buffer for strings
+                    if(numeric_range && types_match(llhstype, lhstype))
                     {
                         rtosc_scan_arg_val(llhssrc, &llhsarg, 1,
                                            NULL, &zero, 0, 0);
